@@ -207,6 +207,16 @@ class Check:
             self.notes.append({"driver_build_failed": out[-1500:]})
             self.violation("driver-build", "the Lean model driver does not build against the regenerated model: no correspondence stream can run",
                            {"lake_output_tail": out[-1500:]}, False)
+        else:
+            # facts about the Float instance that theorems take as hypotheses (inf <= 1 is false, inf - inf is NaN)
+            exe = os.path.join(LEAN, ".lake", "build", "bin", "driver")
+            try:
+                out2 = subprocess.run([exe, "selftest"], input="", capture_output=True, text=True, timeout=60).stdout.strip()
+            except Exception as ex:
+                out2 = "error: %s" % ex
+            self.cov["driver_selftest"] = out2
+            if out2 != "inf-le-one=false inf-bits=9218868437227405312 nan-minus=true finite-minus=false":
+                self.violation("driver-selftest", "the Float instance of the model does not behave as the theorems assume: " + out2, {"selftest": out2}, False)
         return True
 
     def stream(self, name, harness_args, driver_mode, prefix_arg_index=None, between=None):
